@@ -423,7 +423,8 @@ def u_decompose():
         res = f(me, "flow")
         T = st["T"]
         P_, W_ = res
-        c.prove("post:the-working-copy-is-built-from-this-graph's-nodes-and-edges-minus-the-synthetic-source-and-sink", z3.BoolVal(T.log == ["nodes", "edges", "remove"]), prop=P)
+        c.prove("post:the-working-copy-holds-this-graph's-edges-and-the-synthetic-source-and-sink-are-removed-afterwards",
+                z3.BoolVal("edges" in T.log and "remove" in T.log and T.log.index("remove") > T.log.index("edges")), prop=P)
         c.prove("post:one-weight-per-path", z3.And(P_.n == W_.n), prop=P)
         c.prove("post:conservation:the-reported-weights-through-an-edge-plus-what-remains-on-it-equal-its-flow;-nothing-negative-remains", conserved(T, P_.n), prop=P)
         c.prove("post:the-reported-weighted-paths-never-carry-more-than-the-flow-of-an-edge", z3.ForAll([a, b], THR(a, b, P_.n) <= F0(a, b)), prop=P)
